@@ -17,7 +17,7 @@ def generate(tag, maxsteps, seeds, simulate=None):
     d = os.path.join(vlib.WORK, tag)
     os.makedirs(d, exist_ok=True)
     cfg = os.path.join(d, "MC_Rewrite.cfg")
-    vlib.write_cfg(cfg, spec="Spec", constants={"MaxSteps": maxsteps, "SeedSet": "{" + ",".join(map(str, seeds)) + "}"},
+    vlib.write_cfg(cfg, spec="Spec", constants={"MaxSteps": maxsteps, "SeedSet": "<- " + seeds},
                    invariants=["RulesPreserveMeaning", "EmitInv"])
     extra = []
     if simulate:
@@ -32,12 +32,12 @@ def generate(tag, maxsteps, seeds, simulate=None):
 
 def collect(tier, tag):
     if tier == "quick":
-        states, r = generate(tag, 1, range(1, NSEEDS + 1))
+        states, r = generate(tag, 1, "AllSeeds")
         st = {"states": r["states"], "distinct": r["distinct"], "depth": 1}
     else:
-        states, r = generate(tag, 2, range(1, NSEEDS + 1))
+        states, r = generate(tag, 2, "AllSeeds")
         st = {"states": r["states"], "distinct": r["distinct"], "depth": 2}
-        sim, sr = generate(tag + "-sim", 6, range(1, NSEEDS + 1), simulate=400)
+        sim, sr = generate(tag + "-sim", 6, "AllSeeds", simulate=400)
         states += sim
         st["states"] += sr["states"]
         st["simulated_walks_depth6"] = 400
@@ -174,7 +174,7 @@ def run_rewrite(prop, tier, tag):
         path = vlib.write_replay(prop, f"{tier}-rw{len(violations)}", payload)
         violations.append((path, f"{j['kind']} after {s['rules']}: {s['_src'].strip().splitlines()[-2][:160]}"))
     cov = {"rewrite_model_states": gst["distinct"], "rewrite_programs": len(states), "rewrite_depth": gst["depth"],
-           "rewrite_classes": NSEEDS, "rewrite_trace_lines": consumed, "rewrite_binding_selftest": neg,
+           "rewrite_classes": len({s["seed"] for s in states}), "rewrite_trace_lines": consumed, "rewrite_binding_selftest": neg,
            "rules": sorted({x for s in states for x in s["rules"]}),
            # vacuity guard: how many programs each rule produced, and how many of them differ textually from their seed
            "programs_per_rule": {r: sum(1 for s in states if s["steps"] and s["rule"] == r) for r in sorted({s["rule"] for s in states if s["steps"]})}}
@@ -198,7 +198,7 @@ def run(prop, tier):
                for s in states if s["steps"] == 0][:3]
     cov.update({"states": gst["distinct"] + tstates, "transitions": gst["states"] + consumed,
                 "traces_validated_against_impl": consumed, "samples": samples, "exhaustive": tier == "quick",
-                "rule": f"all programs reachable from each of the {NSEEDS} seeds by <= MaxSteps rewrites (TLC breadth first); observables "
+                "rule": f"all programs reachable from each of the seeds of Rewrite.tla (hand-picked + twin seeds) by <= MaxSteps rewrites (TLC breadth first); observables "
                         "= validate vector (default + strict) over the seed's probes + common pool, hash256, hash"})
     vlib.write_evidence(prop, tier, cov, time.time() - t0, len(violations),
                         ["Rewrite.tla's rules are my transcription of 'meaning-preserving'; TLC checks each preserves BeffSem membership",
